@@ -65,7 +65,7 @@ func init() {
 	}
 	for _, p := range []*propDef{
 		{ID: "C13", Engine: "store", Level: "exploration", Rule: "runs = generated store histories (0-6 plans with varied field values; 12-40 operations Create / Update* / Read / Exists / Search / List / Delete / Reopen by one client compared operation by operation with a reference model, every fourth index 2-3 concurrent clients whose history is checked for linearizability with porcupine) against the real SQLite vault (in-memory and file-backed) and the CosmosDB vault over the package's fake client, under the seeded scheduler; non-trivial = at least three vault operations executed; distinct = distinct operation/result traces"},
-		{ID: "C15", Engine: "store", Level: "exploration", Rule: "runs = generated store histories biased towards Exists / Search / List with every filter combination, limits and consumers that drain or cancel, compared with a reference filter over the model store; non-trivial = a filter matched a proper non-empty subset of the stored plans or a consumer cancelled a stream; distinct = distinct operation/result traces"},
+		{ID: "C15", Engine: "store", Level: "exploration", Mode: "with-crash", Rule: "two passes; second pass (the recovery clause): crash-engine runs (a process death at an enumerated or sampled durable write of a real execution, restart on the same store) in which every plan durably Running at the crash must be found again by the restarted process (resumed or closed, never ignored). First pass: runs = generated store histories biased towards Exists / Search / List with every filter combination, limits and consumers that drain or cancel, compared with a reference filter over the model store; non-trivial = a filter matched a proper non-empty subset of the stored plans or a consumer cancelled a stream; distinct = distinct operation/result traces"},
 		{ID: "C14", Engine: "store", Level: "fault_enumeration", Mode: "with-kill", Rule: "two passes. (1) store histories biased towards Create (unserialisable request at a seeded position, duplicate ids, cosmos item errors) and Delete, compared with the model and with direct row counts; (2) createkill: a child process performs Create or Delete on a real file-backed SQLite store holding 0-2 other plans and is SIGKILLed, or gets ENOSPC/EIO, on entry to the n-th pwrite64 / fsync issued during the operation (strace syscall injection; quick: sampled n, thorough: every n), then a fresh process opens the store and checks all-or-nothing, the other plans and acknowledged-implies-durable; evaluations = store histories + injected child runs; non-trivial = a Create with a fault / a duplicate / a Delete was executed, or an injected child run; distinct = distinct traces / distinct (operation, fault kind, call, n, outcome)"},
 	} {
 		p.QuickMs, p.ThorMs = 30_000, 400_000
@@ -351,10 +351,10 @@ func check(id, tier string) int {
 	}
 	wg.Wait()
 
-	if second := map[string]string{"with-kill": "createkill", "with-failstop": "failstop"}[p.Mode]; second != "" {
+	if second := map[string]string{"with-kill": "createkill", "with-failstop": "failstop", "with-crash": "crash"}[p.Mode]; second != "" {
 		// second pass with another engine
 		wall2 := wall
-		if second == "failstop" {
+		if second == "failstop" || second == "crash" {
 			wall2 = wall / 3
 		}
 		kres := make([]*workerResult, nw)
